@@ -24,13 +24,29 @@ use super::Lead;
 use super::headers::*;
 use super::payload;
 
+/// Whether `path` itself (not what it may point to) is a symbolic link.
+fn is_symlink(path: &Path) -> bool {
+    path.symlink_metadata()
+        .map(|metadata| metadata.file_type().is_symlink())
+        .unwrap_or(false)
+}
+
 /// The place below `dest` to which an archived `path` is extracted. Archived paths are relative to
-/// the root of the package; a path with a `..` component could lead out of `dest` and is refused.
+/// the root of the package; a path with a `..` component, or one that leads through a symbolic link
+/// extracted earlier, could lead out of `dest` and is refused.
 fn extraction_path(dest: &Path, path: &Path) -> Result<PathBuf, Error> {
     let mut extracted = dest.to_path_buf();
     for component in path.components() {
         match component {
-            Component::Normal(name) => extracted.push(name),
+            Component::Normal(name) => {
+                if is_symlink(&extracted) {
+                    return Err(Error::InvalidDestinationPath {
+                        path: path.display().to_string(),
+                        desc: "path leads through a symbolic link",
+                    });
+                }
+                extracted.push(name)
+            }
             Component::RootDir | Component::CurDir => {}
             Component::ParentDir | Component::Prefix(_) => {
                 return Err(Error::InvalidDestinationPath {
@@ -152,10 +168,17 @@ impl Package {
             let perms = fs::Permissions::from_mode(file.metadata.mode.permissions().into());
             match file.metadata.mode {
                 FileMode::Dir { .. } => {
+                    if is_symlink(&file_path) {
+                        fs::remove_file(&file_path)?;
+                    }
                     fs::create_dir_all(&file_path)?;
                     fs::set_permissions(&file_path, perms)?;
                 }
                 FileMode::Regular { .. } => {
+                    // a symbolic link of the same name is replaced, not written through
+                    if is_symlink(&file_path) {
+                        fs::remove_file(&file_path)?;
+                    }
                     let mut f = fs::File::create(&file_path)?;
                     f.write_all(&file.content)?;
                     fs::set_permissions(&file_path, perms)?;
